@@ -68,7 +68,7 @@ theorem c01_publisher_order (history : List (Event α)) :
         fromPub (exec history).accepted (exec history).src st.id ++ itemsOf st.script =
           itemsOf ((exec history).scripts[st.id]?.getD [])) := by
   have h := exec_pub history
-  exact ⟨h.2.2.2.2.2, h.2.2.2.2.1⟩
+  exact ⟨h.2.2.2.2.2.1, h.2.2.2.2.1⟩
 
 /-- What a subscriber observes of any one publisher: the items it was handed (plus the one buffered for it) that
     came from publisher `sid` form one contiguous run of that publisher's sequence, in that publisher's order —
@@ -82,7 +82,39 @@ theorem c01_subscriber_sees_publisher_run (history : List (Event α)) (sid : Nat
   have hi := (c01_exactly_once_in_order history).1 k hk
   refine ⟨fromPub ((exec history).accepted.take k.regAt) ((exec history).src.take k.regAt) sid, ?_⟩
   rw [hi.2, ← fromPub_append _ _ _ _ _ (by simp [hp.1]), List.take_append_drop, List.take_append_drop]
-  exact hp.2.2.2.2.2 sid
+  exact hp.2.2.2.2.2.1 sid
+
+/-- A publisher that has gone was forwarded completely: for every reachable router state and every publisher
+    stream the topic adopted and no longer holds (`StreamMap` only lets go of a stream that has ended), the items
+    accepted from it are exactly the items it came with, in its order. -/
+theorem c01_ended_publisher_fully_accepted (history : List (Event α)) (sid : Nat)
+    (hlt : sid < (exec history).nextStream) (hgone : ∀ st ∈ (exec history).streams, st.id ≠ sid) :
+    fromPub (exec history).accepted (exec history).src sid = itemsOf ((exec history).scripts[sid]?.getD []) :=
+  (exec_pub history).2.2.2.2.2.2 sid hlt hgone
+
+theorem exec_snoc (history : List (Event α)) (e : Event α) : exec (history ++ [e]) = applyEvent (exec history) e := by
+  simp [exec, List.foldl_append]
+
+/-- End to end through the router: once a poll ends without being blocked by a subscriber, a subscriber that was
+    registered before anything was accepted has received — and had flushed — everything every ended publisher
+    sent: the part of what it got that came from publisher `sid` is `sid`'s whole sequence, in order. -/
+theorem c01_subscriber_gets_all_of_an_ended_publisher (history : List (Event α)) (fuel : Nat) (oracle : List Nat)
+    (h : (pollFuel fuel oracle (exec history)).1 = .idle ∨ (pollFuel fuel oracle (exec history)).1 = .waitingStreams ∨
+         (pollFuel fuel oracle (exec history)).1 = .done)
+    (k : Child α) (hk : k ∈ (pollFuel fuel oracle (exec history)).2.1.sinks) (hreg : k.regAt = 0)
+    (sid : Nat) (hlt : sid < (pollFuel fuel oracle (exec history)).2.1.nextStream)
+    (hgone : ∀ st ∈ (pollFuel fuel oracle (exec history)).2.1.streams, st.id ≠ sid) :
+    fromPub k.got (pollFuel fuel oracle (exec history)).2.1.src sid =
+        itemsOf ((pollFuel fuel oracle (exec history)).2.1.scripts[sid]?.getD []) ∧
+      k.flushed = k.got.length := by
+  have hd := c01_delivered_and_flushed history fuel oracle h k hk
+  have hs : (pollFuel fuel oracle (exec history)).2.1 = exec (history ++ [.poll fuel oracle]) := by
+    rw [exec_snoc]; rfl
+  rw [hreg, List.drop_zero] at hd
+  refine ⟨?_, hd.2⟩
+  rw [hd.1, hs]
+  rw [hs] at hlt hgone
+  exact c01_ended_publisher_fully_accepted (history ++ [.poll fuel oracle]) sid hlt hgone
 
 /-! Non-vacuity: a concrete run — two subscribers (one not ready at first), one publisher with two items. -/
 def exHistory : List (Event Nat) :=
@@ -108,3 +140,6 @@ end Selium.Route
 #print axioms Selium.Route.c01_delivered_and_flushed
 #print axioms Selium.Route.c01_publisher_order
 #print axioms Selium.Route.c01_subscriber_sees_publisher_run
+#print axioms Selium.Route.c01_ended_publisher_fully_accepted
+#print axioms Selium.Route.exec_snoc
+#print axioms Selium.Route.c01_subscriber_gets_all_of_an_ended_publisher
